@@ -1142,9 +1142,15 @@ class TrajectoryStore:
             self._next_index = len(base_nc_file.traj_dim[0])
 
         # Set up index information.
+        # Whether an existing store is indexable is fixed by its contents: it
+        # either has a flight ID index or it does not (leaving this undecided
+        # let an APPEND session add identified trajectories to an
+        # unidentified store).
         if '_index' in base_nc_file.dataset[0].groups:
             self.index_group = base_nc_file.dataset[0].groups['_index']
             self.indexable = True
+        else:
+            self.indexable = False
 
         # Open any associated NetCDF files.
         for name in self.associated_files:
